@@ -51,8 +51,12 @@ class FakeFunction:
     def __call__(self, *args, **kwargs):
         self.log.append((self.name, args, tuple(sorted(kwargs.items()))))
         self.sim.hit("env:" + self.name)
+        if self.coeffs is None:
+            return None          # a function whose value is None is still a value
         acc = self.coeffs[-1] + len(self.name)
         for i, a in enumerate(args):
+            if a is None:
+                a = 0
             acc = acc + self.coeffs[i % 3] * a
         for _, v in sorted(kwargs.items()):
             acc = acc + 13 * v
